@@ -289,6 +289,10 @@ def cases():
         if m.nboxes() == [3]:
             for lay in families.all_layouts(3, 3):
                 out.append({'label': '%s/layout%s' % (m.name, lay), 'mesh': m, 'fields': fsets[2], 'layout': [lay], 'geom': 1})
+    # ten levels refining towards the upper corner: cell indices with four digits, FAB header lines of more than 100 characters
+    # (twelve fields: a field count with two digits)
+    dm = families.deep_mesh(10, 3, corner='upper')
+    out.append({'label': dm.name, 'mesh': dm, 'fields': ['f%d' % i for i in range(12)], 'layout': families.scatter_layouts(dm, rnd, 1), 'geom': 0})
     for r in range(6 if tier == 'quick' else 200):
         nd = rnd.choice([2, 3])
         m = families.random_mesh(rnd, nd, max_levels=2 if tier == 'quick' else 3, max_boxes=4 if tier == 'quick' else 6)
